@@ -53,6 +53,7 @@ func (s *Sched) Go(name string, fn func()) {
 	go func() {
 		s.mu.Lock()
 		s.byGoID[GoID()] = name
+		s.done[name] = false // an actor name may be used again for a later call
 		s.mu.Unlock()
 		close(started)
 		defer func() {
